@@ -24,7 +24,7 @@ ASSUMPTIONS = [
     "real C datetime/zoneinfo with a synthetic TZif zone built from the path's model",
     "the system local zone (pendulum.local) is stubbed through pendulum.set_local_timezone()",
 ]
-OUTSIDE = ["parse(tz=) entry (see C07)", "tz database contents (only the contract is used)",
+OUTSIDE = [ "tz database contents (only the contract is used)",
            "zones with more than two transitions near the wall time", "years outside the stated window"]
 REACH = ["unique", "repeated fold=1", "repeated fold=0", "skipped fold=1", "skipped fold=0",
          "NonExistingTime", "AmbiguousTime", "gap crosses midnight"]
@@ -47,6 +47,10 @@ def _build(ctx, route, tz, y, m, d, h, mi, s, us, fold, raise_):
         return tz.convert(n, raise_on_unknown_times=raise_)
     if route == "tz.datetime":
         return tz.datetime(y, m, d, h, mi, s, us)             # fold=1 by definition
+    if route == "parse":
+        text = (format(y, "04d") + "-" + format(m, "02d") + "-" + format(d, "02d") + "T" + format(h, "02d") + ":"
+                + format(mi, "02d") + ":" + format(s, "02d") + "." + format(us, "06d"))
+        return P.parse(text, tz=tz)                           # offset-less string: default fold
     if route == "naive.in_timezone":
         return P.naive(y, m, d, h, mi, s, us).in_timezone(tz)  # replace(fold=1) then convert
     # routes that start from an existing aware value and funnel into create() with its fold
@@ -60,7 +64,7 @@ def _build(ctx, route, tz, y, m, d, h, mi, s, us, fold, raise_):
     raise AssertionError(route)
 
 
-DEFAULT_FOLD_ROUTES = ("local", "tz.datetime", "naive.in_timezone")
+DEFAULT_FOLD_ROUTES = ("local", "tz.datetime", "naive.in_timezone", "parse")
 
 
 def construct(ctx, route, ntrans, ylo, yhi, raising):
@@ -142,7 +146,7 @@ def fixed(ctx, route, ylo, yhi):
     ctx.observe("r", fields(r) + [off_seconds(r), r.fold])
 
 
-ROUTES = ("datetime", "create", "local", "convert", "tz.datetime", "naive.in_timezone", "set", "on.at", "replace")
+ROUTES = ("datetime", "create", "local", "convert", "tz.datetime", "naive.in_timezone", "set", "on.at", "replace", "parse")
 
 
 def cases(tier):
